@@ -126,7 +126,7 @@ def gen_ops(rng, world, n_ev, max_ops=25, allow_faults=True):
         deep = [a for a in below
                 if world['level'][f] >= 2 and a not in world['deps'][f]]
         pat = rng.choice(['ese', 'ese', 'range', 'sse', 'name', 'ege', 'alt',
-                          'alt', 'alt', 'peek'])
+                          'alt', 'alt', 'peek', 'equalish', 'equalish'])
         branchy = [a for a in formulas if 'IF(' in str(world['cells'][a])
                    or 'CHOOSE(' in str(world['cells'][a])]
         if pat == 'alt' and branchy and rng.random() < 0.6:
@@ -167,6 +167,25 @@ def gen_ops(rng, world, n_ev, max_ops=25, allow_faults=True):
             ops += [op_eval(f)]
             for _ in range(rng.randint(2, 6)):
                 ops += [op_set(rng.choice(below or inputs)), op_eval(f)]
+        elif pat == 'equalish':
+            # one input runs through values that are equal / hash alike in
+            # Python but are different things to a spreadsheet
+            family = rng.choice([['', 0, False, None, 0.0, '0', -0.0],
+                                 [1, True, 1.0, '1', 'TRUE', 'true'],
+                                 ['abc', 'ABC', 'Abc', ' abc'],
+                                 [2, 2.0, '2', '2.0', ' 2']])
+            crit = [a for a in formulas if 'COUNTIF' in str(world['cells'][a])
+                    or '=' in str(world['cells'][a])[1:]]
+            if crit and rng.random() < 0.6:
+                f = rng.choice(crit)
+                below = [a for a in closure(world, f)
+                         if world['level'].get(a, 0) == 0]
+            tgt = rng.choice(below or inputs)
+            vals = rng.sample(family, min(len(family), rng.randint(3, 5)))
+            for v in vals:
+                o = op_set(tgt)
+                o['value'] = worlds.enc(v)
+                ops += [o, op_eval(f)]
         elif pat == 'peek' and blanks:
             # a referenced cell that is stored nowhere is looked at (not
             # set) before the formulas that read it are evaluated
